@@ -184,6 +184,15 @@ SKELETONS = [
     "select random(42) as r, a from t1",
 ]
 
+# fixed-spelling statements executed AFTER the re-cased one: what it left behind must not depend on how it was spelled
+FOLLOWUPS = {
+    "set myvar = 10": ["SET MYVAR = 20", "select $myvar as v, $MyVar as w from t1", "unset MYVAR"],
+    "create table tnew (id int, name varchar(10), ts timestamp_ntz, v variant, f float) comment = 'Some Comment'": ["select ID, NAME from TNEW", "describe table TNEW"],
+    'create table "Quoted Tbl" ("Col A" int, colb text)': ['select "Col A", COLB from "Quoted Tbl"'],
+    "use schema s2": ["select a from T1"],
+    "create schema db2.newschema": ["create table DB2.NEWSCHEMA.T (a int)"],
+}
+
 _RECASE_TYPES = None
 
 
@@ -260,7 +269,7 @@ def _norm_emitted(sql) -> str:
     return " ".join(parts)
 
 
-def _outcome(sql: str):
+def _outcome(sql: str, followups=None):
     from vf.stubs import StubTable
 
     eng = std_engine()
@@ -279,6 +288,16 @@ def _outcome(sql: str):
         err = ("ProgrammingError", e.errno, e.sqlstate)
     except (NotImplementedError, AssertionError) as e:
         err = (type(e).__name__, str(e)[:40].upper())
+    follow = []
+    for fsql in followups or []:
+        try:
+            c2 = conn.cursor()
+            c2.execute(fsql)
+            follow.append(("ok", c2.fetchall()))
+        except snowflake.connector.errors.ProgrammingError as e:
+            follow.append(("ProgrammingError", e.errno))
+        except Exception as e:  # noqa: BLE001
+            follow.append((type(e).__name__,))
     vs = getattr(conn.variables, "_variables", {})
     return (
         [_norm_emitted(q) for _c, q in eng.log[base:]],
@@ -289,13 +308,15 @@ def _outcome(sql: str):
         (conn.database, conn.schema, conn.database_set, conn.schema_set),
         sorted((str(k), str(v).upper()) for k, v in dict(vs).items()),
         eng.user_snapshot(),
+        follow,
     )
 
 
 def _differential(si: int, b0: int, b1: int, b2: int, b3: int, b4: int, b5: int) -> bool:
     sql = SKELETONS[si]
-    ref = _outcome(_recase(sql, None, mode="upper"))
-    var = _outcome(_recase(sql, [b0, b1, b2, b3, b4, b5]))
+    fu = FOLLOWUPS.get(sql)
+    ref = _outcome(_recase(sql, None, mode="upper"), fu)
+    var = _outcome(_recase(sql, [b0, b1, b2, b3, b4, b5]), fu)
     return ref == var
 
 
@@ -339,16 +360,25 @@ def _real_recasing(a: dict):
             "create table db1.s1.table_a (a int)", "insert into t1 values (1, '1', parse_json('{\"k\": \"x\"}')), (2, '2', null)", "insert into t2 values (1), (3)",
         ):
             cur.execute(ddl)
+        follow = []
         try:
             cur.execute(text)
             rows = cur.fetchall()
             if "random" in text.lower() or "sample" in text.lower() or "created_on" in str([d.name for d in cur.description]).lower():
                 rows = len(rows)
-            return ("ok", rows, [d.name for d in cur.description], cur.rowcount, conn.database, conn.schema)
+            first = ("ok", rows, [d.name for d in cur.description], cur.rowcount, conn.database, conn.schema)
         except snowflake.connector.errors.ProgrammingError as e:
-            return ("ProgrammingError", e.errno, e.sqlstate)
+            first = ("ProgrammingError", e.errno, e.sqlstate)
         except Exception as e:  # noqa: BLE001
-            return (type(e).__name__,)
+            first = (type(e).__name__,)
+        for fsql in FOLLOWUPS.get(sql) or []:
+            try:
+                follow.append(("ok", conn.cursor().execute(fsql).fetchall()))
+            except snowflake.connector.errors.ProgrammingError as e:
+                follow.append(("ProgrammingError", e.errno))
+            except Exception as e:  # noqa: BLE001
+                follow.append((type(e).__name__,))
+        return first, follow
 
     r1 = run(_recase(sql, None, mode="upper"))
     r2 = run(_recase(sql, bits))
